@@ -78,7 +78,7 @@ def build(cfg):
     dec = wishbone.Decoder(addr_width=cfg["aw"], data_width=cfg["dw"], granularity=cfg["g"],
                            features=feats(cfg["feat"]), alignment=cfg.get("align", 0))
     b = Built()
-    b.dec = dec; b.subs = []; b.results = []
+    b.dec = dec; b.subs = []; b.results = []; b.refused = []
     for i, sc in enumerate(cfg["subs"]):
         sb = wishbone.Interface(addr_width=sc["aw"], data_width=sc["dw"], granularity=sc["g"],
                                 features=feats(sc["feat"]), path=(f"s{i}",))
@@ -102,6 +102,7 @@ def build(cfg):
                 r = dec.add(sb, **kw)
         except ValueError:
             b.results.append(("rejected",) if validation_refuses(cfg, sc) else ("unplaced",))
+            b.refused.append(sb)
             continue
         b.results.append(("ok", [int(r[0]), int(r[1]), int(r[2])], sb.memory_map.addr_width))
         b.subs.append((i, sb))
@@ -316,6 +317,14 @@ def run_impl(case):
         if hasattr(dec.bus, nm):
             outs.append(getattr(dec.bus, nm)); out_idx.append(("b", 0, k))
     stim = [[q[k] if w == "b" else rs[j][k] for (w, j, k) in in_idx] for (q, rs) in case["stim"]]
+    # interfaces whose add() was refused are not part of the decoder: they keep answering (all response lines
+    # high, read data all ones) and must have no influence on it
+    nref = 0
+    for sb in b.refused:
+        for nm in RSP:
+            if hasattr(sb, nm):
+                ins.append(getattr(sb, nm)); nref += 1
+    stim = [row + [-1] * nref for row in stim]
     rows = S.simulate(dec, ins, outs, stim) if stim else []
     n = len(b.subs)
     obs = []
